@@ -2301,12 +2301,20 @@ _dbus_read_credentials_socket  (DBusSocket       client_fd,
     else
       {
         pid_read = cr.pid;
-        uid_read = cr.uid;
+
+        /* A socket that is not AF_UNIX (for instance TCP) has no peer
+         * credentials: Linux then reports uid and gid -1. uid_t is
+         * narrower than dbus_uid_t, so without this check the value
+         * would not compare equal to DBUS_UID_UNSET below, and the peer
+         * could authenticate as user 4294967295 with EXTERNAL. */
+        if (cr.uid != (uid_t) -1)
+          uid_read = cr.uid;
 #ifdef __linux__
         /* Do other platforms have cr.gid? (Not that it really matters,
          * because the gid is useless to us unless we know the complete
          * group vector, which we only know on Linux.) */
-        primary_gid_read = cr.gid;
+        if (cr.gid != (gid_t) -1)
+          primary_gid_read = cr.gid;
 #endif
       }
 #elif defined(HAVE_UNPCBID) && defined(LOCAL_PEEREID)
